@@ -27,7 +27,7 @@ class MpStudyEngine(EngineBase):
     source_files = ['TidalPy/utilities/multiprocessing/multiprocessing.py',
                     'TidalPy/utilities/multiprocessing/__init__.py',
                     'TidalPy/utilities/numpy_helper/array_other.py',
-                    'TidalPy/utilities/string_helper.py']
+                    'TidalPy/utilities/string_helper/string_helper.py']
     has_sim_clock = True
     sim_time_note = 'discrete-event clock: every seam step advances it by the plan\'s tick, every case by case_seconds'
 
@@ -308,9 +308,22 @@ class MpStudyEngine(EngineBase):
 
     # ------------------------------------------------------------------------------------------
     def pre_checks(self, tier, base_seed, workers):
-        from . import fidelity
-        n = 3 if tier == 'quick' else 20
-        return fidelity.run(self, base_seed, n, workers)
+        from . import fidelity, sweep
+        from simkit.runner import run_jobs
+        out = fidelity.run(self, base_seed, 3 if tier == 'quick' else 20, workers)
+        plans, meta = sweep.sweep_plans(self, base_seed, 2 if tier == 'quick' else 24, double=(tier != 'quick'))
+        res = run_jobs(self, [('plan', p) for p in plans], workers=workers, job_cap_s=120.0)
+        n_ok = 0
+        for idx, status, item in res:
+            if status == 'ok':
+                n_ok += 1
+                item['seed'] = None
+                out['results'].append(item)
+            else:
+                out['harness_errors'].append('kill sweep plan %d: %s: %s' % (idx, status, str(item)[-800:]))
+        out['summary']['exhaustive_kill_sweeps'] = {'configs': meta, 'plans_run': n_ok,
+                                                    'note': 'every seam step of the first attempt (and, thorough tier, of a killed restart) used as the kill point'}
+        return out
 
     # ------------------------------------------------------------------------------------------
     def rule_text(self):
